@@ -10,7 +10,7 @@ import docgen as D
 from common import Str, sx
 
 ID = 'C01'
-LEAN_MODULES = ['Cellml.Props.C01', 'Cellml.Tie.ConnDir', 'Cellml.Tie.ConnLoop', 'Cellml.Tie.LoaderConsts', 'Cellml.Tie.LoaderSym', 'Cellml.Tie.LoaderRel', 'Cellml.Tie.LoaderComps', 'Cellml.Tie.LoaderParse', 'Cellml.Tie.ConvertCases', 'Cellml.Tie.ConvertPw', 'Cellml.Tie.Convert', 'Cellml.Tie.Units', 'Cellml.Tie.ConnLoopClosed', 'Cellml.Tie.LoaderUnitsOrder', 'Cellml.Tie.GenBWhile', 'Cellml.Tie.GenBUnitDefs', 'Cellml.Tie.LoaderStagesA', 'Cellml.Tie.LoaderStagesB', 'Cellml.Tie.LoaderStagesC', 'Cellml.Tie.LoaderStagesD', 'Cellml.Tie.MathsWalk', 'Cellml.Tie.LoaderGen', 'Cellml.Props.C01Gen']
+LEAN_MODULES = ['Cellml.Props.C01', 'Cellml.Tie.ConnDir', 'Cellml.Tie.ConnLoop', 'Cellml.Tie.LoaderConsts', 'Cellml.Tie.LoaderSym', 'Cellml.Tie.LoaderRel', 'Cellml.Tie.LoaderComps', 'Cellml.Tie.LoaderParse', 'Cellml.Tie.ConvertCases', 'Cellml.Tie.ConvertPw', 'Cellml.Tie.Convert', 'Cellml.Tie.Units', 'Cellml.Tie.ConnLoopClosed', 'Cellml.Tie.LoaderUnitsOrder', 'Cellml.Tie.GenBWhile', 'Cellml.Tie.GenBUnitDefs', 'Cellml.Tie.LoaderStagesA', 'Cellml.Tie.LoaderStagesB', 'Cellml.Tie.LoaderStagesC', 'Cellml.Tie.LoaderStagesD', 'Cellml.Tie.MathsWalk', 'Cellml.Tie.LoaderGen', 'Cellml.Tie.NumPipe', 'Cellml.Props.C01Gen']
 N = {'quick': 300, 'thorough': 5000}
 RULE = ('documents from harness/docgen.py: component forests of 1-7 components (depth <= 4), 1-7 signals (constants by '
         'initial_value or equation, algebraic variables, states with ODEs, derivative references on other right-hand '
@@ -200,6 +200,25 @@ def corpus():
             {'name': 'x', 'units': 'ms', 'pub': None, 'priv': None, 'init': '12', 'cmeta': None},
             {'name': 't', 'units': 'second', 'pub': 'in', 'priv': None, 'init': None, 'cmeta': None}],
             'maths': [[{'lhs': ['diff', 'x', 't'], 'rhs': ['pow', ['*', ['var', 'y'], ['var', 'y']], 2]}]]}],
+        'meta': {'signals': []}}, 'corpus'))
+    # numbers in the same units that agree to 6 significant digits: Quantity names ('_' + '{:g}'.format(value)) collide,
+    # the values must not (constants by initial_value, by equation, and <cn> inside expressions)
+    def v(name, units, init=None):
+        return {'name': name, 'units': units, 'pub': None, 'priv': None, 'init': init, 'cmeta': None}
+
+    def n(text, units):
+        return ['num', text, units]
+    out.append(make_case({
+        'name': 'm', 'cmeta': None, 'groups': [], 'connections': [], 'order': None, 'units': [],
+        'components': [{'name': 'cell', 'variables': [
+            v('T_ref', 'kelvin', '310.15'), v('T_set', 'kelvin', '310.1504'), v('offset', 'kelvin'),
+            v('k1', 'dimensionless'), v('k2', 'dimensionless'), v('dk', 'dimensionless'), v('F', 'dimensionless')],
+            'maths': [[{'lhs': ['var', 'offset'], 'rhs': ['-', ['var', 'T_set'], ['var', 'T_ref']]}],
+                      [{'lhs': ['var', 'k1'], 'rhs': n('0.1234567', 'dimensionless')}],
+                      [{'lhs': ['var', 'k2'], 'rhs': n('0.1234568', 'dimensionless')}],
+                      [{'lhs': ['var', 'dk'], 'rhs': ['-', ['var', 'k2'], ['var', 'k1']]}],
+                      [{'lhs': ['var', 'F'], 'rhs': ['-', n('96485.3415', 'dimensionless'),
+                                                     n('96485.34', 'dimensionless')]}]]}],
         'meta': {'signals': []}}, 'corpus'))
     return out
 
